@@ -21,7 +21,9 @@ RULE = (
     "fully and n=3 single-group count-based; thorough: all DAGs x listing orders for n<=3 (x estimates {1,2,3}^n for "
     "time-based batching, x 2-group assignments, x batch size / walltime cap / try-add / max-nodes grids) and the "
     "n=4 single-group time-based try-add sub-space with estimates {1,2}^4 -- counters.enumerated gives the count; (2) "
-    "generated: full submissions (all rounds) of random scenarios up to 12 jobs, each also run with dry_run on. "
+    "generated: full submissions (all rounds) of random scenarios up to 12 jobs, each also run with dry_run on; a third "
+    "continue with resubmit-jobs -s <file> carrying a NEW generated parameter set per group, whose batches are checked "
+    "against the new set. "
     "Oracle per sbatch: 1 <= |batch| <= per_node_batch_size, or sum of estimated minutes <= walltime x "
     "processes-per-node; all jobs of one group; #SBATCH account/partition/qos/time/job-name and the run-script "
     "options are that group's; a job whose blocker has no result row on disk is only in the batch if try-add-blocked "
@@ -37,8 +39,20 @@ setup, teardown = C.setup, C.teardown
 NOHOOKS = {"setup": False, "teardown": False, "node_setup": False, "node_teardown": False}
 
 
+@st.composite
+def full_cases(draw):
+    scn = draw(gen.scenarios())
+    case = {"scn": scn, "schedule": draw(gen.schedules(100)), "full": True}
+    if draw(st.sampled_from([False, False, True])):
+        # the documented way to change group parameters: resubmit-jobs -s <groups file> after completion; the rerun's
+        # batches have to follow the NEW parameter set of their group
+        case["regroup"] = {"groups": [draw(gen.group_params(len(scn["jobs"]))) for _ in scn["groups"]],
+                           "successful": draw(st.booleans())}
+    return case
+
+
 def strategy(tier):
-    return st.fixed_dictionaries({"scn": gen.scenarios(), "schedule": gen.schedules(100), "full": st.just(True)})
+    return full_cases()
 
 
 def _scn(jobs, groups, max_nodes):
@@ -180,6 +194,26 @@ def run_case(case):
         for r in sb:
             admitted = check_sbatch(scn, r, v, sim) or admitted
         first_round = {r["batch"]: r["jobs"] for r in sb if r["by_thread"] == "login"}
+        rg = case.get("regroup")
+        if rg and case["full"] and outcome == "complete" and not v:
+            from jade.models import SubmissionGroup
+
+            scn2 = dict(scn, groups=rg["groups"])
+            gfile = os.path.join(sim.root, "groups2.json")
+            with H.W.REAL.open(gfile, "w") as fh:
+                json.dump([json.loads(SubmissionGroup(**g).json()) for g in H.make_groups(scn2)], fh)
+            n_before = len(sb)
+            sim.user_cmd(["resubmit-jobs", sim.out, "--failed", "--missing",
+                          "--successful" if rg["successful"] else "--no-successful", "-s", gfile], name="resubmit")
+            sim.recovery_rounds = 0
+            outcome = sim.drive()
+            if outcome == "budget":
+                res["inconclusive"] = "step-budget"
+            sb = sim.w.events("sbatch")
+            for r in sb[n_before:]:
+                admitted = check_sbatch(scn2, r, v, sim) or admitted
+            if len(sb) > n_before:
+                res["classes"].append("resubmitted_with_new_group_parameters")
         res["nontrivial"] = len(sb) >= 2 or admitted
         if admitted:
             res["classes"].append("blocked_job_admitted_with_blocker")
